@@ -22,6 +22,7 @@ RULE = ("case = one key word (tuples over {null,0..G-1} per key) x route (plain,
         "chunk-wise with fan-out 2-4, monotonic prefix, bare factorize functions) x sort; every view "
         "is taken from a fresh object; non-trivial = >= 2 rows and (>= 2 labels or a null)")
 ASSUMPTIONS = [
+    'key dtypes also: int32 / uint8, float32, timedelta64[ns, s], tz-aware datetimes, fixed-width and byte strings, pandas nullable Int64 / Float64 / boolean holding pd.NA (plain and chunk-wise routes)',
     "n <= 6 rows single key (quick) / 7-8 (thorough); n <= 4 for two keys, n <= 3 for three keys",
     "labels from fixed tables per dtype (first-appearance, sorted and code order all differ)",
     "Arrow-backed containers use Arrow nulls (a float NaN inside an Arrow array is an ordinary "
